@@ -20,7 +20,7 @@ from nverif.oracle.jets import JetDomainError
 
 EPS = 2.0 ** -52
 FLOOR = 1e-3              # perturbations are relative to max(|x|, FLOOR)
-TOL_VALUE = 60.0          # |lib - oracle|_max <= TOL_VALUE * eps * E          (calibrated, see evidence)
+TOL_VALUE = 40.0          # |lib - oracle|_max <= TOL_VALUE * eps * E          (calibrated, see evidence)
 UNDERFLOW = 1e-290        # absolute floor of every tolerance (results at the underflow threshold)
 C_TRUNC = 1.0             # truncation constant of the derivative clause (rigorous: 2/3 and 1/3)
 K_DERIV = 24              # jet length used for S_3, S_4 (Cauchy tail added by exprs.Analysis)
@@ -90,6 +90,23 @@ def perturbation(draw, x, limit, z2zero=False):
         f = 0.999 * limit / tot
         p = [v * f for v in p]
     return p
+
+
+def np_tree(e):
+    """The program the numpy back end really evaluates: np has no cot/sec/csc/coth/sech/csch, a user
+    writes 1.0 / np.tan(u) etc. (exprs._np_unary), so the certificate must be that of the quotient
+    (1/tan(u) has a singular intermediate where cos(u) = 0, cos(u)/sin(u) has not)."""
+    t = e[0]
+    if t in ('x', 'c'):
+        return list(e)
+    if t == 'u':
+        sub = np_tree(e[2])
+        if e[1] in idem.RECIP:
+            return ['/', ['c', 1.0], ['u', idem.RECIP[e[1]], sub]]
+        return ['u', e[1], sub]
+    if t in ('powi', 'powr'):
+        return [t, np_tree(e[1]), e[2]]
+    return [t, np_tree(e[1]), np_tree(e[2])]
 
 
 def rho_of(tree, x):
@@ -195,7 +212,7 @@ TREES = exprs.expr_trees(unary=tuple(ALL_UNARY), max_leaves=5, max_size=10)
 
 @st.composite
 def tree_case(draw):
-    tree = draw(TREES)
+    tree = np_tree(draw(TREES))
     pts, scalar = points(draw, tree, lambda: draw_generic_x(draw), draw(st.integers(0, 11)) == 0)
     return dict(kind='tree', name='tree', tree=tree, pts=pts, scalar=scalar)
 
@@ -208,7 +225,7 @@ def deriv_case(draw):
         x = draw_x(draw, name)
         via = draw(st.sampled_from(['method', 'numpy'])) if name in NP_NAMES else 'method'
     else:
-        tree = draw(TREES)
+        tree = np_tree(draw(TREES))
         name, via = 'tree', 'numpy'
         x = None
         for _ in range(6):
@@ -224,18 +241,14 @@ def deriv_case(draw):
     return dict(kind='deriv', name=name, via=via, tree=tree, x=x, h=h, form=form)
 
 
+KIND_WEIGHTS = ['unary'] * 7 + ['pow'] * 2 + ['binop'] * 4 + ['tree'] * 5 + ['deriv'] * 4
+
+
 @st.composite
 def any_case(draw):
-    k = draw(st.integers(0, 19))
-    if k < 8:
-        return draw(unary_case())
-    if k < 10:
-        return draw(pow_case())
-    if k < 14:
-        return draw(binop_case())
-    if k < 18:
-        return draw(tree_case())
-    return draw(deriv_case())
+    kind = draw(st.sampled_from(KIND_WEIGHTS))
+    return draw({'unary': unary_case, 'pow': pow_case, 'binop': binop_case, 'tree': tree_case,
+                 'deriv': deriv_case}[kind]())
 
 
 # --------------------------------------------------------------------------------------
@@ -409,6 +422,8 @@ class C12(Prop):
     def check(self, case, ctx):
         from numdifftools.multicomplex import Bicomplex
         kind = case['kind']
+        if case.get('name') == 'tree':
+            case = dict(case, tree=np_tree(case['tree']))
         if kind == 'deriv':
             pts = [[case['x'], case['h'], case['h'] if case['form'] == 'jh' else 0.0, 0.0]]
             scalar = True
@@ -459,9 +474,13 @@ class C12(Prop):
         if kind == 'binop' and case['op'] == '**' and case['order'] == 'wz' and not scalar \
                 and case['ptype'] in ('int', 'float', 'complex'):
             attrs['regimes'] = sorted(regimes | {'rpow:python-scalar**array'})
-        if SKIP_KNOWN and (set(attrs['regimes']) & {'tanh:over300', 'arcsinh:neg', 'log1p:re<-0.5',
-                                                    'rpow:python-scalar**array'}
-                           or any(r.endswith((':mixed', ':huge', ':tiny')) for r in attrs['regimes'])):
+        if kind == 'binop' and case['op'] == '**' and scalar and (
+                (case['order'] == 'zw' and case['ptype'] == 'bicomplex' and case['w'][1] == 0)
+                or (case['order'] == 'wz' and case['ptype'] == 'bicomplex' and pts[0][1] == 0)):
+            attrs['regimes'] = sorted(set(attrs['regimes']) | {'pow:0-d bicomplex exponent with imag1 == 0'})
+        if SKIP_KNOWN and ('tanh:over300' in attrs['regimes']
+                           or 'pow:0-d bicomplex exponent with imag1 == 0' in attrs['regimes']
+                           or any(r.endswith((':huge', ':tiny')) for r in attrs['regimes'])):
             ctx.skip('development: known defect regime skipped')
         # --- library
         libf = self._libf(case, Bicomplex)
